@@ -77,7 +77,8 @@ class Sys3:
 # ---------------------------------------------------------------- one design = one spec
 def cfg_tag(cfg):
     doms = ",".join(f"{n}:{e}/{r}" for n, (e, r) in sorted(cfg["doms"].items(), reverse=True))
-    return f"doms[{doms}];top[{','.join(cfg['top'])}];sub[{','.join(cfg['sub'])}]" + (";b" if cfg.get("logic_b") else "")
+    return f"doms[{doms}];top[{','.join(cfg['top'])}];sub[{','.join(cfg['sub'])}]" + (";b" if cfg.get("logic_b") else "") + \
+        (";ports=" + cfg["ports"] if cfg.get("ports", "n") != "n" else "")
 
 
 class C03Spec:
@@ -85,7 +86,7 @@ class C03Spec:
     module, innermost first], "sub": [wrappers applied to the leaf submodule], "logic_b": bool}"""
     def __init__(self, cfg):
         self.cfg = {"doms": {k: tuple(v) for k, v in cfg["doms"].items()}, "top": list(cfg["top"]),
-                    "sub": list(cfg["sub"]), "logic_b": bool(cfg.get("logic_b"))}
+                    "sub": list(cfg["sub"]), "logic_b": bool(cfg.get("logic_b")), "ports": cfg.get("ports", "n")}
         self.model = Model(self.cfg)
         mdl = self.model
         n_in = len(mdl.sync_inputs)
@@ -94,7 +95,7 @@ class C03Spec:
 
     def describe(self):
         return {"doms": {k: list(v) for k, v in self.cfg["doms"].items()}, "top": self.cfg["top"], "sub": self.cfg["sub"],
-                "logic_b": self.cfg["logic_b"]}
+                "logic_b": self.cfg["logic_b"], "ports": self.cfg["ports"]}
 
     # -- the real design, through the public API only
     def build(self):
@@ -140,11 +141,18 @@ class C03Spec:
                 m.d["other" if two else "sync"] += sp[1].eq(~sp[1])
                 m.submodules.mem = mem = Memory(shape=1, depth=2, init=[ini["m0"], ini["m1"]])
                 wp = mem.write_port(domain="sync")
-                rp = mem.read_port(domain="sync")
-                m.d.comb += [wp.addr.eq(cnt[0]), wp.data.eq(d), wp.en.eq(1), rp.addr.eq(rl)]
+                m.d.comb += [wp.addr.eq(cnt[0]), wp.data.eq(d), wp.en.eq(1)]
+                box["rdata"] = []
+                if "n" in cfg["ports"]:
+                    rp = mem.read_port(domain="sync")
+                    m.d.comb += rp.addr.eq(rl)
+                    box["rdata"].append(rp.data)
+                if "t" in cfg["ports"]:
+                    tp = mem.read_port(domain="sync", transparent_for=(wp,))
+                    m.d.comb += tp.addr.eq(d)         # a free input: the address moves while an inserted enable is low
+                    box["rdata"].append(tp.data)
                 # late-bound clock / reset of whatever domain this module's "sync" ends up being
                 m.d.comb += obs.eq(Cat(ClockSignal("sync"), ResetSignal("sync", allow_reset_less=True)))
-                box["mem"], box["rp"] = mem, rp
                 return m
 
         class Core(Elaboratable):
@@ -168,8 +176,7 @@ class C03Spec:
             top.domains += cds[name]
         top.submodules.core = wrap(Core(), cfg["top"])
         frag = elaborate(top)
-        rdata = box["rp"].data
-        regs = [cnt, rl, sp] + ([cntb, rlb, sq] if logic_b else []) + [rdata]
+        regs = [cnt, rl, sp] + ([cntb, rlb, sq] if logic_b else []) + box["rdata"]
         found, mems = walk_state(frag)
         clocks = [cds[n].clk for n in mdl.dom_names]
         arsts = [cds[n].rst for n in mdl.arst_doms]
@@ -245,27 +252,28 @@ def configs(rep):
                 out.append({"doms": none2, "top": [o, w], "sub": [], "logic_b": True})
     # family D: every combination of domain kinds, no wrappers
     for ka in KINDS:
-        out.append({"doms": {"sync": ka}, "top": [], "sub": [], "logic_b": False})
+        out.append({"doms": {"sync": ka}, "top": [], "sub": [], "logic_b": False, "ports": "nt"})
         for kb in KINDS:
             out.append({"doms": {"sync": ka, "other": kb}, "top": [], "sub": [], "logic_b": True})
-    # family W: every nesting of wrappers at the top / at the submodule
+    # family W: every nesting of wrappers at the top / at the submodule; the memory has the ordinary and the transparent
+    # read port ("nt"); the transparent one is addressed by the free input d
     for sub, top in nestings(full, rep.pick(2, 3)):
         if sub or top:
-            out.append({"doms": pair0, "top": top, "sub": sub, "logic_b": False})
+            out.append({"doms": pair0, "top": top, "sub": sub, "logic_b": False, "ports": "nt"})
     if not rep.quick:
         # more domain pairs, and the swapping renamer DX, with <= 2 wrappers
         pairs = (pair0, {"sync": ("neg", "async"), "other": ("pos", "none")}, {"sync": ("pos", "none"), "other": ("pos", "sync")},
                  {"sync": ("neg", "sync"), "other": ("neg", "sync")})
         for pair in pairs:
             for sub, top in nestings(full + ["DX"], 2):
-                c = {"doms": pair, "top": top, "sub": sub, "logic_b": False}
+                c = {"doms": pair, "top": top, "sub": sub, "logic_b": False, "ports": "nt"}
                 if (sub or top) and c not in out:
                     out.append(c)
         # single-domain designs of every kind under the inserters
         for ka in KINDS:
             for sub, top in nestings(one, 2):
                 if sub or top:
-                    out.append({"doms": {"sync": ka}, "top": top, "sub": sub, "logic_b": False})
+                    out.append({"doms": {"sync": ka}, "top": top, "sub": sub, "logic_b": False, "ports": "nt"})
     return out
 
 
@@ -307,7 +315,8 @@ NEED = ["active_edge", "inactive_edge", "simultaneous_active_edges", "other_doma
         "domain_reset_overrides_enable", "mem_write", "mem_write_gated_by_enable", "mem_read", "mem_read_gated_by_enable",
         "mem_ports_renamed", "renamed_logic_clocked_by_target", "partial_signal_reset", "reset_less_domain_edge",
         "per_domain_reset_applied", "per_domain_enable_freezes", "idle_domain_reset_control_asserted",
-        "idle_domain_enable_control_deasserted"]
+        "idle_domain_enable_control_deasserted", "transparent_read", "transparent_read_sees_same_edge_write",
+        "transparent_read_gated_by_enable", "gated_transparent_read_would_change", "gated_read_would_change"]
 
 
 def run(rep):
@@ -321,6 +330,8 @@ def run(rep):
         rep.add("traces_validated_against_impl", r["validated"])
         rep.add("designs", 1)
         rep.add("designs_with_wrappers" if (r["cfg"]["top"] or r["cfg"]["sub"]) else "designs_domain_kinds_only", 1)
+        if "t" in r["cfg"].get("ports", "n"):
+            rep.add("designs_with_transparent_read_port", 1)
         if {"R3", "E3"} & set(r["cfg"]["top"] + r["cfg"]["sub"]):
             rep.add("designs_with_per_domain_controls", 1)
         allflags.update(r["flags"])
@@ -344,7 +355,8 @@ def run(rep):
     rep.setcov("flags_seen", sorted(allflags))
     rep.setcov("wrapper_alphabet", {k: f"{v[0]} {v[1]}" for k, v in WRAPPERS.items()})
     rep.setcov("rule", "for every design: full reachable product graph of (real simulated registers, memory rows, read-port data, "
-               "clock levels, asynchronous-reset levels) x register-level model; every state expanded with every valuation of "
+               "clock levels, asynchronous-reset levels) x register-level model (memory: write port + non-transparent sync read port; in the "
+               "single-domain and all wrapper designs also a read port transparent for the write port, addressed by the data input); every state expanded with every valuation of "
                "{data bit, inserted controls, synchronous domain resets} followed by every single level event (toggle of any "
                "non-empty subset of clocks at once | flip of one asynchronous reset); complete state compared after every event. "
                "Designs: all 6 single-domain and all 36 two-domain kind combinations (pos/neg x sync/async/reset-less) without "
